@@ -6,12 +6,16 @@ import subprocess
 import time
 
 VERIF = '/verif'
-REPO = '/repo'
-CACHE = os.path.join(VERIF, '.cache')
-VENDOR = os.path.join(CACHE, 'vendor')
-CARGO_HOME = os.path.join(CACHE, 'cargo-home')
+# Development aid (never set by a registered command): VERIF_REPO=<scratch worktree of /repo, outside /root> runs the same
+# checks on a patched copy while /repo is busy; build caches, outputs and evidence then go to .cache/scratch, so that the
+# evidence of /repo itself is never overwritten by such a run.
+REPO = os.environ.get('VERIF_REPO') or '/repo'
+_SCRATCH = os.path.realpath(REPO) != '/repo'
+CACHE = os.path.join(VERIF, '.cache', 'scratch') if _SCRATCH else os.path.join(VERIF, '.cache')
+VENDOR = os.path.join(VERIF, '.cache', 'vendor')
+CARGO_HOME = os.path.join(VERIF, '.cache', 'cargo-home')
 OUT = os.path.join(CACHE, 'out')
-EVIDENCE = os.path.join(VERIF, 'evidence')
+EVIDENCE = os.path.join(CACHE, 'evidence') if _SCRATCH else os.path.join(VERIF, 'evidence')
 REPLAY = os.path.join(EVIDENCE, 'replay')
 KNOWN = os.path.join(VERIF, 'known_findings.json')
 
